@@ -1,5 +1,372 @@
+//! C08 — reported events are genuine, direction-filtered, ordered and consistent.
+//! C09 — no sign change between accepted steps goes unreported (same workload machinery,
+//! different oracle and root placement).
+
+use super::common::*;
 use crate::ctx::{Ctx, Meta};
+use crate::probe::*;
+use crate::problems::Problem;
 use crate::report::Report;
-pub fn run(ctx: &Ctx, _c09: bool) -> (Report, Meta) {
-    (Report::new(&ctx.prop), Meta::new("not built yet"))
+use crate::rng::Rng;
+use crate::util::{next_down, next_up, par_for, EPS};
+use ivp::prelude::*;
+use serde_json::json;
+
+fn dir_ok(g0: f64, g1: f64, dir: i32) -> bool {
+    // weak crossing in integration order
+    match dir {
+        0 => (g0 <= 0.0 && g1 >= 0.0) || (g0 >= 0.0 && g1 <= 0.0),
+        1 => g0 <= 0.0 && g1 >= 0.0,
+        _ => g0 >= 0.0 && g1 <= 0.0,
+    }
+}
+fn strict_cross(g0: f64, g1: f64, dir: i32) -> bool {
+    match dir {
+        0 => (g0 < 0.0 && g1 > 0.0) || (g0 > 0.0 && g1 < 0.0),
+        1 => g0 < 0.0 && g1 > 0.0,
+        _ => g0 > 0.0 && g1 < 0.0,
+    }
+}
+fn delta(t: f64) -> f64 {
+    4e-12 + 8.0 * EPS * t.abs()
+}
+
+fn kind_name(e: &EvSpec) -> &'static str {
+    match e.kind {
+        EvKind::Time { .. } => "time",
+        EvKind::Comp { .. } => "component",
+        EvKind::Lin { .. } => "linear",
+        EvKind::Prod { .. } => "product",
+        EvKind::TwoRoots { .. } => "two_roots",
+        EvKind::Sq { .. } => "square",
+    }
+}
+
+pub fn run(ctx: &Ctx, c09: bool) -> (Report, Meta) {
+    let prop = if c09 { "C09" } else { "C08" };
+    let meta = if c09 {
+        Meta::new(
+            "bounded problems x 6 methods x both directions x tolerances; event functions t - c, y_k - c, linear forms with thresholds placed from a pilot run's accepted-step grid (mid-step, boundary +-{1e-13,1e-12,1e-9} relative, several functions firing in one step) and random ones, three direction filters; oracle: sign pattern of g over consecutive reported points decides how many events each step must contain; single known roots (t - c) must be found exactly once at c; non-trivial = run with >= 1 located event (distinct by scenario hash)",
+        )
+        .assume("an exact zero of g at a step endpoint makes the adjacent intervals inconclusive for that function (the property allows either)")
+        .floor("intervals_with_strict_sign_change", 1000)
+        .floor("intervals_with_same_sign", 20000)
+        .floor("known_root_cases", 300)
+        .floor("steps_with_two_or_more_functions_firing", 30)
+    } else {
+        Meta::new(
+            "bounded problems x 6 methods (DOP853 / long steps / nonlinear g over-weighted) x both directions x tolerances x 1..4 simultaneous event functions of 6 kinds (t - c, y_k - c, linear, product y_i y_j - c, two close roots, y_k^2 - c) x three direction filters, dense_output on; every reported event is checked: inside the integrated span and inside a step whose endpoint values show a crossing of the configured direction, y_e equal to sol(t_e) to rounding, g(t_e, y_e) zero to root-finder accuracy (|g| <= 1e-11(1+scale) or a sign bracket of g(sol(.)) within 4e-12 + 8 eps |t|), per-function ordering, shapes; non-trivial = run with >= 1 located event (distinct by scenario hash)",
+        )
+        .assume("event functions are harness-owned, so g can be recomputed on the run's own continuous solution")
+        .floor("events_checked", 3000)
+        .floor("events_checked_DOP853", 300)
+        .floor("runs_with_events", 800)
+        .floor("endpoint_root_cases", 300)
+    }
+    .thresholds(json!({"root_abs_rel": 1e-11, "bracket_delta": "4e-12 + 8 eps |t|", "state_rounding_factor": 64}));
+
+    let n = ctx.size(5_000, 150_000);
+    let g = GenOpts { allow_max_step: true, bidirectional_problems: true, max_span: 40.0, ..Default::default() };
+    let rep = par_for(n, prop, |i, rep| {
+        let case_id = format!("case/{}", i);
+        if !ctx.want(&case_id) {
+            return;
+        }
+        let mut rng = Rng::derive(ctx.seed, if c09 { 9 } else { 8 }, i as u64);
+        let (prob, mut scn) = gen_case(&mut rng, &g);
+        if !c09 && i % 3 == 0 {
+            // over-weight the configuration in which a faulty root search escapes its bracket
+            scn.method = Method::DOP853;
+            scn.rtol = Tol::S(rng.logu(1e-6, 1e-3));
+            scn.atol = Tol::S(scn.rtol.at(0) * 1e-2);
+            scn.max_step = if rng.bool() { Some(f64::INFINITY) } else { None };
+            scn.user_jac = false;
+        }
+        scn.t_eval = None;
+        scn.first_step = if scn.method == Method::RK4 { Some(scn.dir() * (scn.xend - scn.x0).abs() / rng.range(40.0, 300.0)) } else { None };
+        scn.max_steps = None;
+        scn.dense = true;
+        let m = mname(scn.method);
+        let nst = scn.y0.len();
+        let dirn = scn.dir();
+        // events
+        scn.events.clear();
+        let mut known_root: Option<(usize, f64)> = None;
+        if c09 {
+            let Some(grid) = pilot_grid(&prob, &scn) else {
+                rep.inconclusive("pilot_run_unusable");
+                return;
+            };
+            let ng = grid.len();
+            let nev = 1 + rng.below(4);
+            // a step in which several functions fire
+            let kshared = rng.below(ng - 1);
+            for e in 0..nev {
+                let k = if e > 0 && rng.chance(0.5) { kshared } else { rng.below(ng - 1) };
+                let (a, b) = (grid[k], grid[k + 1]);
+                let c = match rng.below(6) {
+                    0 | 1 => a + (b - a) * rng.range(0.05, 0.95),
+                    2 => b + dirn * 1e-13 * (1.0 + b.abs()) * rng.sign(),
+                    3 => b + dirn * 1e-12 * (1.0 + b.abs()) * rng.sign(),
+                    4 => b + dirn * 1e-9 * (1.0 + b.abs()) * rng.sign(),
+                    _ => a + (b - a) * rng.range(0.45, 0.55),
+                };
+                let inside = (c - scn.x0) * dirn > 0.0 && (c - scn.xend) * dirn < 0.0 && grid.iter().all(|&g| g != c);
+                let d = rng.int(-1, 1) as i32;
+                if rng.chance(0.6) && inside {
+                    scn.events.push(EvSpec { kind: EvKind::Time { c }, dir: d, terminal: None });
+                    if known_root.is_none() {
+                        known_root = Some((scn.events.len() - 1, c));
+                    }
+                } else {
+                    scn.events.push(random_event(&mut rng, nst, scn.x0, scn.xend));
+                }
+            }
+        } else {
+            let nev = 1 + rng.below(4);
+            for _ in 0..nev {
+                let mut e = random_event(&mut rng, nst, scn.x0, scn.xend);
+                if i % 3 == 0 && nst >= 2 && rng.chance(0.6) {
+                    e.kind = EvKind::Prod { i: 0, j: 1, c: rng.range(-0.4, 0.4) };
+                }
+                scn.events.push(e);
+            }
+            if i % 4 == 1 {
+                // roots exactly on (or a hair beside) an accepted step endpoint, taken from a pilot run
+                let mut ps = scn.clone();
+                ps.events.clear();
+                ps.dense = false;
+                if let Outcome::Ok(psol) = run_solve(&prob, &ps, false, false).out {
+                    if psol.t.len() >= 3 {
+                        let k = 1 + rng.below(psol.t.len() - 2);
+                        let tk = psol.t[k];
+                        let ev = match rng.below(4) {
+                            0 => EvKind::Time { c: tk },
+                            1 => EvKind::Time { c: tk + 1e-12 * rng.sign() },
+                            2 => {
+                                let j = rng.below(nst);
+                                EvKind::Comp { k: j, c: psol.y[k][j] }
+                            }
+                            _ => {
+                                let j = rng.below(nst);
+                                EvKind::Comp { k: j, c: psol.y[k][j] * (1.0 + 4.0 * EPS) }
+                            }
+                        };
+                        scn.events.push(EvSpec { kind: ev, dir: 0, terminal: None });
+                        rep.count("endpoint_root_cases", 1);
+                    }
+                }
+            }
+        }
+        let res = run_solve(&prob, &scn, false, false);
+        rep.eval();
+        let case = scn.describe(&prob);
+        let sol = match &res.out {
+            Outcome::Ok(s) => s,
+            Outcome::Budget => {
+                rep.inconclusive("evaluation_budget_exhausted");
+                return;
+            }
+            Outcome::Err(_) => {
+                rep.count("config_errors_returned", 1);
+                return;
+            }
+            Outcome::Panic(msg) => {
+                rep.violate(&format!("{}/no_panic/{}/events", prop, m), format!("panic: {}", msg), &case_id, case);
+                return;
+            }
+        };
+        if sol.t.len() < 2 {
+            rep.inconclusive("fewer_than_two_samples");
+            return;
+        }
+        let ne = scn.events.len();
+        // shapes (both properties rely on them)
+        if sol.t_events.len() != ne || sol.y_events.len() != ne {
+            rep.violate(&format!("{}/shapes/{}/outer_length", prop, m), format!("{} event functions but t_events has {} and y_events {} entries", ne, sol.t_events.len(), sol.y_events.len()), &case_id, case);
+            return;
+        }
+        for e in 0..ne {
+            if sol.t_events[e].len() != sol.y_events[e].len() || sol.y_events[e].iter().any(|v| v.len() != nst) {
+                rep.violate(&format!("{}/shapes/{}/inner_length", prop, m), format!("event {}: {} times, {} states (dimension {})", e, sol.t_events[e].len(), sol.y_events[e].len(), nst), &case_id, case);
+                return;
+            }
+        }
+        let total_events: usize = sol.t_events.iter().map(|v| v.len()).sum();
+        if total_events > 0 {
+            rep.nontrivial(scn_hash(&scn, &prob));
+            rep.count("runs_with_events", 1);
+        }
+        let t = &sol.t;
+        let gvals: Vec<Vec<f64>> = scn.events.iter().map(|e| (0..t.len()).map(|k| e.g(t[k], &sol.y[k])).collect()).collect();
+        let (lo, hi) = (t[0].min(*t.last().unwrap()), t[0].max(*t.last().unwrap()));
+
+        if !c09 {
+            // ------------------------------ C08 ------------------------------
+            for e in 0..ne {
+                let ev = &scn.events[e];
+                let kn = kind_name(ev);
+                let mut prev_te: Option<f64> = None;
+                for (j, &te) in sol.t_events[e].iter().enumerate() {
+                    let ye = &sol.y_events[e][j];
+                    rep.count("events_checked", 1);
+                    rep.count(&format!("events_checked_{}", m), 1);
+                    let mut c2 = case.clone();
+                    c2["event"] = json!({"function": e, "index": j, "t_e": te, "y_e": ye});
+                    // inside the integrated span
+                    if !(te >= lo && te <= hi) {
+                        rep.violate(&format!("C08/event_outside_span/{}/{}", m, kn), format!("event of function {} at t = {:e} outside the integrated span [{:e}, {:e}]", e, te, lo, hi), &case_id, c2);
+                        continue;
+                    }
+                    // ordering
+                    if let Some(p) = prev_te {
+                        if (te - p) * dirn < 0.0 {
+                            rep.violate(&format!("C08/event_order/{}/{}", m, kn), format!("events of function {} not in integration order: {:e} after {:e}", e, te, p), &case_id, c2.clone());
+                        }
+                    }
+                    prev_te = Some(te);
+                    // bracketing step(s) with a crossing of the configured direction
+                    let mut found = false;
+                    let mut hstep = 0.0;
+                    for k in 0..t.len() - 1 {
+                        let (a, b) = (t[k].min(t[k + 1]), t[k].max(t[k + 1]));
+                        if te >= a && te <= b {
+                            hstep = b - a;
+                            if dir_ok(gvals[e][k], gvals[e][k + 1], ev.dir) {
+                                found = true;
+                                break;
+                            }
+                        }
+                    }
+                    if !found {
+                        rep.violate(
+                            &format!("C08/event_inside_step/{}/{}", m, kn),
+                            format!("event of function {} at t = {:e}: the accepted step containing it shows no crossing with direction {} at its endpoints", e, te, ev.dir),
+                            &case_id,
+                            c2.clone(),
+                        );
+                        continue;
+                    }
+                    // y_e equals the continuous solution
+                    match sol.sol(te) {
+                        Ok(w) => {
+                            let mut f = vec![0.0; nst];
+                            prob.f(te, &w, &mut f);
+                            for q in 0..nst {
+                                let den = 64.0 * EPS * (w[q].abs() + (hstep + te.abs()) * f[q].abs()) + 1e-11 * f[q].abs();
+                                let d = (ye[q] - w[q]).abs();
+                                if den > 0.0 {
+                                    rep.worst("event_state_vs_sol_ratio", d / den);
+                                }
+                                if d > den {
+                                    rep.violate(&format!("C08/event_state_is_solution/{}/{}", m, kn), format!("y_e[{}] = {:e} but sol(t_e)[{}] = {:e} (t_e = {:e})", q, ye[q], q, w[q], te), &case_id, c2.clone());
+                                    break;
+                                }
+                            }
+                        }
+                        Err(er) => {
+                            rep.violate(&format!("C08/event_state_is_solution/{}/{}", m, kn), format!("sol(t_e = {:e}) failed: {:?}", te, er), &case_id, c2.clone());
+                            continue;
+                        }
+                    }
+                    // root quality
+                    let gscale = gvals[e].iter().fold(0.0f64, |mx, v| mx.max(v.abs()));
+                    let ge = ev.g(te, ye);
+                    let small = ge.abs() <= 1e-11 * (1.0 + gscale);
+                    let mut bracket = false;
+                    if !small {
+                        let d = delta(te);
+                        let (ta, tb) = ((te - d).max(lo), (te + d).min(hi));
+                        if let (Ok(wa), Ok(wb)) = (sol.sol(ta), sol.sol(tb)) {
+                            let (ga, gb) = (ev.g(ta, &wa), ev.g(tb, &wb));
+                            bracket = (ga <= 0.0 && gb >= 0.0) || (ga >= 0.0 && gb <= 0.0);
+                        }
+                    }
+                    rep.worst("abs_g_at_event_over_scale", ge.abs() / (1.0 + gscale));
+                    if !small && !bracket {
+                        rep.violate(&format!("C08/event_is_root/{}/{}", m, kn), format!("g_{}(t_e, y_e) = {:e} at t_e = {:e} and no sign bracket within {:e}", e, ge, te, delta(te)), &case_id, c2.clone());
+                    }
+                }
+            }
+        } else {
+            // ------------------------------ C09 ------------------------------
+            for k in 0..t.len() - 1 {
+                let mut firing = 0;
+                for e in 0..ne {
+                    let ev = &scn.events[e];
+                    let kn = kind_name(ev);
+                    let (g0, g1) = (gvals[e][k], gvals[e][k + 1]);
+                    if g0 == 0.0 || g1 == 0.0 {
+                        rep.inconclusive("exact_zero_at_step_endpoint");
+                        continue;
+                    }
+                    let (a, b) = (t[k].min(t[k + 1]), t[k].max(t[k + 1]));
+                    let closed = sol.t_events[e].iter().filter(|&&te| te >= a && te <= b).count();
+                    let open = sol.t_events[e].iter().filter(|&&te| te > a && te < b).count();
+                    if strict_cross(g0, g1, ev.dir) {
+                        firing += 1;
+                        rep.count("intervals_with_strict_sign_change", 1);
+                        if closed == 0 || open >= 2 {
+                            let mut c2 = case.clone();
+                            c2["interval"] = json!({"k": k, "t_k": t[k], "t_k1": t[k + 1], "g_k": g0, "g_k1": g1, "function": e, "events_of_function": sol.t_events[e]});
+                            rep.violate(
+                                &format!("C09/sign_change_reported_once/{}/{}", m, kn),
+                                format!("function {} changes sign ({:e} -> {:e}, direction filter {}) over [{:e}, {:e}] but {} events are reported in that step", e, g0, g1, ev.dir, t[k], t[k + 1], closed),
+                                &case_id,
+                                c2,
+                            );
+                        }
+                    } else if g0.signum() == g1.signum() {
+                        rep.count("intervals_with_same_sign", 1);
+                        if open >= 1 {
+                            let mut c2 = case.clone();
+                            c2["interval"] = json!({"k": k, "t_k": t[k], "t_k1": t[k + 1], "g_k": g0, "g_k1": g1, "function": e, "events_of_function": sol.t_events[e]});
+                            rep.violate(
+                                &format!("C09/no_event_without_sign_change/{}/{}", m, kn),
+                                format!("function {} has the same strict sign at both ends of [{:e}, {:e}] but {} events are reported strictly inside", e, t[k], t[k + 1], open),
+                                &case_id,
+                                c2,
+                            );
+                        }
+                    } else {
+                        // sign change of the direction that is filtered out: no event may be reported inside
+                        rep.count("intervals_with_filtered_sign_change", 1);
+                        if open >= 1 {
+                            let mut c2 = case.clone();
+                            c2["interval"] = json!({"k": k, "t_k": t[k], "t_k1": t[k + 1], "g_k": g0, "g_k1": g1, "function": e});
+                            rep.violate(&format!("C09/filtered_direction_reported/{}/{}", m, kn), format!("function {} crosses in the direction excluded by its filter {} over [{:e}, {:e}] but an event is reported", e, ev.dir, t[k], t[k + 1]), &case_id, c2);
+                        }
+                    }
+                }
+                if firing >= 2 {
+                    rep.count("steps_with_two_or_more_functions_firing", 1);
+                }
+            }
+            if let Some((e, c)) = known_root {
+                let ev = &scn.events[e];
+                // g = t - c increases with t: in integration order the crossing is positive forward, negative backward
+                let expected = if ev.dir == 0 || (ev.dir as f64) * dirn > 0.0 { 1 } else { 0 };
+                rep.count("known_root_cases", 1);
+                let got = sol.t_events[e].len();
+                if sol.status == Status::Success {
+                    let mut c2 = case.clone();
+                    c2["known_root"] = json!({"function": e, "c": c, "reported": sol.t_events[e]});
+                    if got != expected {
+                        rep.violate(&format!("C09/known_root_count/{}/time", m), format!("g = t - {:e} (filter {}, integration direction {}) must yield {} event(s) but {} were reported", c, ev.dir, dirn, expected, got), &case_id, c2);
+                    } else if expected == 1 {
+                        let err = (sol.t_events[e][0] - c).abs();
+                        rep.worst("known_root_location_error_over_delta", err / delta(c));
+                        if err > delta(c) {
+                            rep.violate(&format!("C09/known_root_location/{}/time", m), format!("root of t - {:e} located at {:e} (error {:e} > {:e})", c, sol.t_events[e][0], err, delta(c)), &case_id, c2);
+                        }
+                    }
+                }
+            }
+        }
+        if i % 701 == 0 {
+            rep.sample(json!({"scenario": case, "events_found": sol.t_events.iter().map(|v| v.len()).collect::<Vec<_>>(), "accepted_steps": sol.naccpt}));
+        }
+        let _ = (next_up(0.0), next_down(0.0));
+    });
+    (rep, meta)
 }
